@@ -138,6 +138,9 @@ struct TlRef {
     cnt: BTreeMap<u64, u8>,
     w: usize,
     touched: BTreeSet<u64>,
+    /// the same bookkeeping per *key* for the key-based entry points (whatever the key hashes to)
+    kdoor: BTreeMap<u64, bool>,
+    kcnt: BTreeMap<u64, u8>,
 }
 
 impl TlRef {
@@ -151,7 +154,26 @@ impl TlRef {
             for c in self.cnt.values_mut() {
                 *c /= 2;
             }
+            for d in self.kdoor.values_mut() {
+                *d = false;
+            }
+            for c in self.kcnt.values_mut() {
+                *c /= 2;
+            }
         }
+    }
+    /// an access by key: recorded per key, before the matching `inc(hash)` (which also advances the window)
+    fn note_key(&mut self, k: u64) {
+        let d = self.kdoor.entry(k).or_insert(false);
+        if !*d {
+            *d = true;
+        } else {
+            let c = self.kcnt.entry(k).or_insert(0);
+            *c = (*c + 1).min(15);
+        }
+    }
+    fn kexact(&self, k: u64) -> u64 {
+        *self.kcnt.get(&k).unwrap_or(&0) as u64 + *self.kdoor.get(&k).unwrap_or(&false) as u64
     }
     fn inc(&mut self, h: u64, samples: usize) {
         self.touched.insert(h);
@@ -174,6 +196,12 @@ impl TlRef {
         let mut b = vec![self.w as u8];
         for h in hs {
             b.push(*self.cnt.get(h).unwrap_or(&0) | ((*self.door.get(h).unwrap_or(&false) as u8) << 7) | ((self.touched.contains(h) as u8) << 6));
+        }
+        for (k, c) in &self.kcnt {
+            b.extend_from_slice(&[*k as u8, *c]);
+        }
+        for (k, d) in &self.kdoor {
+            b.extend_from_slice(&[*k as u8, *d as u8]);
         }
         b
     }
@@ -217,11 +245,13 @@ fn tl_apply(l: &mut TinyLFU<u64>, r: &mut TlRef, cfg: &TlCfg, op: TlOp) {
         TlOp::IncKey(k) => {
             let h = l.hash_key(&k);
             l.increment(&k);
+            r.note_key(k);
             r.inc(h, cfg.samples);
         }
         TlOp::IncKeys(k) => {
             let h = l.hash_key(&k);
             l.increment_keys(&[&k]);
+            r.note_key(k);
             r.inc(h, cfg.samples);
         }
         TlOp::CloneReplace => {
@@ -291,6 +321,14 @@ fn tl_eval(cfg: &TlCfg, hist: &[TlOp], prop: &str) -> EvalOut {
             }
         }
         for k in &keyed {
+            // per key, whatever it hashes to (a clone whose key hasher maps keys elsewhere loses them)
+            let (est, exact) = (l.estimate(k), r.kexact(*k));
+            if est < exact {
+                f.push(Finding::new("C11", "never_under_counts", format!("{}/by-key", disc), format!("estimate(&{}) = {} but the exact aged count of accesses recorded for that key is {} after {:?}", k, est, exact, hist)));
+            }
+            if *r.kdoor.get(k).unwrap_or(&false) && !l.contains(k) {
+                f.push(Finding::new("C11", "doorkeeper_no_false_negative", format!("{}/by-key", disc), format!("contains(&{}) is false although the key was recorded since the last reset, after {:?}", k, hist)));
+            }
             let h = l.hash_key(k);
             if l.estimate(k) != l.estimate_hashed_key(h) || l.contains(k) != l.contains_hash(h) {
                 f.push(Finding::new("C11", "key_and_hash_entry_points_agree", disc.clone(), format!("estimate/contains of key {} disagree with the same query by hash after {:?}", k, hist)));
@@ -433,6 +471,15 @@ fn tl_menu(prop: &str, tier: Tier) -> Vec<(TlCfg, usize, usize)> {
             for (fpr, samples) in [(0.6, 4usize), (0.9, 4), (0.99, 8), (0.3, 3), (1e-9, 2)] {
                 v.push((TlCfg { size: 2, samples, fpr, seeds: seeds[0], hashes: base_hashes.clone(), key_ops: false }, if big { 400_000 } else { 60_000 }, if big { 40 } else { 12 }));
             }
+            if big {
+                // a wider sweep of sketch geometries (row widths 4..128 counters, every seed set)
+                for (i, size) in [3usize, 5, 8, 32, 64, 100].into_iter().enumerate() {
+                    for (j, samples) in [2usize, 5, 16].into_iter().enumerate() {
+                        let si = (i + j) % 4;
+                        v.push((TlCfg { size, samples, fpr: [0.01, 0.2, 0.5][j], seeds: seeds[si], hashes: vec![0, 1, 2, u64::MAX], key_ops: false }, 250_000, 24));
+                    }
+                }
+            }
             v.push((TlCfg { size: 16, samples: 4, fpr: 0.01, seeds: seeds[0], hashes: wide_hashes.clone(), key_ops: false }, if big { 600_000 } else { 40_000 }, if big { 12 } else { 6 }));
             v.push((TlCfg { size: 16, samples: 8, fpr: 0.01, seeds: seeds[3], hashes: wide_hashes.clone(), key_ops: false }, if big { 600_000 } else { 40_000 }, if big { 10 } else { 5 }));
             // key-based entry points (DefaultKeyHasher = RandomState: no merging across builds is assumed,
@@ -495,6 +542,9 @@ pub struct SlCfg {
     pub samples: usize,
     pub costs: Vec<i64>,
     pub hasher: HKind,
+    /// the raw hashed keys of the alphabet (empty = 0, 1, u64::MAX)
+    #[serde(default)]
+    pub hashes: Vec<u64>,
 }
 
 #[derive(Clone, Copy, Debug, Serialize, Deserialize, PartialEq)]
@@ -711,7 +761,8 @@ fn sl_eval(cfg: &SlCfg, hist: &[SlOp]) -> EvalOut {
 
 fn sl_ops(cfg: &SlCfg) -> Vec<SlOp> {
     let mut v = vec![];
-    for h in [0u64, 1, u64::MAX] {
+    let hashes: Vec<u64> = if cfg.hashes.is_empty() { vec![0u64, 1, u64::MAX] } else { cfg.hashes.clone() };
+    for h in hashes {
         for c in &cfg.costs {
             v.push(SlOp::Inc(h, *c));
             v.push(SlOp::Upd(h, *c));
@@ -737,11 +788,17 @@ pub fn run_sampled(prop: &'static str, tier: Tier) -> EngineReport {
     let costs_wide = vec![-3i64, 0, 1, 5, 1 << 40];
     for ctor in 0..7u8 {
         let samples = [2usize, 0, 1, 3, 2, 1, 2][ctor as usize];
-        menu.push((SlCfg { ctor, max_cost: 100, samples, costs: if big && ctor % 3 == 0 { costs_wide.clone() } else { costs_small.clone() }, hasher: if ctor % 2 == 0 { HKind::SipA } else { HKind::Zero } }, if big { 60 } else { 12 }));
+        menu.push((SlCfg { ctor, max_cost: 100, samples, costs: if big && ctor % 3 == 0 { costs_wide.clone() } else { costs_small.clone() }, hasher: if ctor % 2 == 0 { HKind::SipA } else { HKind::Zero }, hashes: vec![] }, if big { 60 } else { 12 }));
     }
     // explicit sample sizes above the default as well
     for (ctor, samples) in [(1u8, 7usize), (3, 6), (5, 8), (6, 9), (1, usize::MAX), (6, usize::MAX / 2)] {
-        menu.push((SlCfg { ctor, max_cost: 10, samples, costs: vec![-3, 5], hasher: HKind::Identity }, if big { 60 } else { 10 }));
+        menu.push((SlCfg { ctor, max_cost: 10, samples, costs: vec![-3, 5], hasher: HKind::Identity, hashes: vec![] }, if big { 60 } else { 10 }));
+    }
+    if big {
+        // wider alphabets: five hashed keys (ends and middle of the u64 range), more cost values
+        menu.push((SlCfg { ctor: 3, max_cost: 100, samples: 4, costs: vec![-3, 1, 5], hasher: HKind::Fnv, hashes: vec![0, 1, 2, 1 << 32, u64::MAX] }, 60));
+        menu.push((SlCfg { ctor: 6, max_cost: 7, samples: 3, costs: vec![-7, 0, 2, 7], hasher: HKind::Zero, hashes: vec![0, 3, 1 << 63, u64::MAX] }, 60));
+        menu.push((SlCfg { ctor: 1, max_cost: 0, samples: 6, costs: vec![i64::MIN / 4, -1, 1, i64::MAX / 4], hasher: HKind::SipA, hashes: vec![5, 6, 7] }, 60));
     }
     if prop == "C05" {
         menu.truncate(3);
@@ -750,7 +807,7 @@ pub fn run_sampled(prop: &'static str, tier: Tier) -> EngineReport {
     for (cfg, depth) in menu {
         let ops = sl_ops(&cfg);
         let c2 = cfg.clone();
-        let out = bfs(&ops, if big { 300_000 } else { 30_000 }, depth, &move |h: &[SlOp]| sl_eval(&c2, h));
+        let out = bfs(&ops, if big { 1_000_000 } else { 30_000 }, depth, &move |h: &[SlOp]| sl_eval(&c2, h));
         rep.states += out.states;
         rep.transitions += out.evals;
         rep.evaluations += out.evals;
